@@ -180,6 +180,13 @@ class Machine:
     def _load(self, env, l, projs):
         v = env.get(l, TOP)
         for p in projs:
+            if p[0] == "vi":
+                if isinstance(v, tuple) and v and v[0] == "ref":
+                    v = self.deref_val(env, v)
+                if not (isinstance(v, tuple) and v and v[0] == "vec" and v[2]):
+                    raise Unsupported("element %d of %s" % (p[1], _kind(v)))
+                v = v[2][p[1]]
+                continue
             if p[0] == "i":
                 # element of a block sequence at a position held in a local
                 ix = env.get(p[1], TOP)
@@ -255,6 +262,12 @@ class Machine:
             if v[0] == "adt" and v[2] == p[1]:
                 return self._store(v, projs[1:], new)
             raise Unsupported("store through a downcast of %s" % (v[:3],))
+        if k == "vi":
+            if v[0] == "vec" and v[2]:
+                items = list(v[2])
+                items[p[1]] = self._store(items[p[1]], projs[1:], new)
+                return ("vec", v[1], tuple(items))
+            raise Unsupported("store into an element of %s" % v[0])
         raise Unsupported("store through %s" % k)
 
     def write_place(self, env, pl, val):
@@ -360,6 +373,11 @@ class Machine:
             raise Unsupported("%s of %s and %s" % (what, _kind(a), _kind(b)))
 
     def compare(self, a, b):
+        if isinstance(a, tuple) and isinstance(b, tuple) and a and b and a[0] == "adt" and b[0] == "adt" and a[1] == b[1] == "Option":
+            # derived order of Option: None < Some(_), payloads compared
+            if a[2] != b[2]:
+                return -1 if a[2] == "None" else 1
+            return 0 if a[2] == "None" else self.compare(a[3][0], b[3][0])
         if isinstance(a, tuple) and isinstance(b, tuple) and a[0] == "tuple" and b[0] == "tuple" and len(a[1]) == len(b[1]):
             for x, y in zip(a[1], b[1]):
                 c = self.compare(x, y)
@@ -602,6 +620,26 @@ class Machine:
                     return ("view", v[1], v[2] + n)
             raise Unsupported("%s on a block sequence" % name)
         # ---- outputs -----------------------------------------------------------------------------------------------------
+        if args and isinstance(args[0], tuple) and args[0][0] == "vec":
+            v = args[0]
+            if name in ("deref", "deref_mut", "as_slice", "as_mut_slice", "as_ref", "as_mut", "borrow", "borrow_mut") and len(args) == 1:
+                return raw[0] if isinstance(raw[0], tuple) and raw[0][0] == "ref" else v        # the vector stands for its slice
+            if name in ("last", "last_mut") and len(args) == 1:
+                if v[2]:
+                    if name == "last":
+                        return some(v[2][-1])
+                    if isinstance(raw[0], tuple) and raw[0][0] == "ref":
+                        return some(("ref", (raw[0][1][0], tuple(raw[0][1][1]) + (("vi", -1),))))
+                    raise Unsupported("last_mut of a vector that is not a place")
+                if v[1] is None:
+                    return NONE
+                raise Unsupported("last element of an output whose content is unknown")
+            if name == "is_empty" and len(args) == 1:
+                if v[2]:
+                    return False
+                if v[1] is None:
+                    return True
+                raise Unsupported("emptiness of an output whose content is unknown")
         if name == "push" and len(args) == 2 and isinstance(args[0], tuple) and args[0][0] == "vec":
             if not (raw and isinstance(raw[0], tuple) and raw[0][0] == "ref"):
                 raise Unsupported("push on a vector that is not a place")
@@ -625,6 +663,10 @@ class Machine:
         # ---- crate functions with a body ------------------------------------------------------------------------------
         b = self.facts.body(res) or self.facts.body(fn)
         if b is not None:
+            if getattr(self, "delegates", None) is not None and b.cycles_sccs():
+                # a crate function with loops of its own: the caller hands the work over (judged as such by the rule)
+                self.delegates.append((res, args))
+                return ("delegated", res, tuple(args))
             return self.call_body(b, raw, env, depth, where)
         # ---- transparent moves ---------------------------------------------------------------------------------------
         if name in ("deref", "deref_mut", "as_ref", "as_mut", "borrow", "borrow_mut", "clone", "into_iter", "into", "from",
